@@ -29,6 +29,11 @@ What is modelled, line by line from `time.rs`:
 * `send_interval(Duration::ZERO)`: `tokio::time::interval` asserts `period > 0` — the assertion is
   the first thing the spawned task does, so the task PANICS at its first poll: nothing is ever sent, the
   `JoinHandle` yields a `JoinError` that `is_panic` (`Res.panicked`). The API call itself returns normally.
+* the free functions take an `ActorCell` and a caller-chosen message type: if it is not the target's
+  (`createX`, `Timer.typed = false`), `send_message` fails with `InvalidActorType` whatever the status
+  (`Timer.canSend`): `send_after` calls the builder once and reports the error, `send_interval`
+  ticks once, calls the builder, and leaves its loop through the `break` (the only way the `break`
+  is reached while the target is still active).
 * huge periods (`Duration::MAX`, `u64::MAX` µs): the model's deadline is the exact `armed + p`. tokio
   saturates (`sleep`: `Instant::far_future()` ≈ now + 30 years when `now + p` overflows; `Interval`:
   `timeout.checked_add(period).unwrap_or_else(far_future)`), which differs from the exact deadline only
@@ -89,6 +94,10 @@ structure Timer where
   is asked for the instant of the first poll itself and is rounded up by the wheel like any other:
   an interval created off the millisecond grid reaches its loop head only at the next boundary. -/
   primed : Bool := false
+  /-- `false`: created through the free functions `ractor::time::{send_after, send_interval}` with an
+  `ActorCell` and a message type that is NOT the target's: `ActorCell::send_message` answers
+  `MessagingErr::InvalidActorType` before it even looks at the status — every send fails -/
+  typed : Bool := true
   deriving DecidableEq, Repr
 
 /-- `x` µs rounded up to a whole number of milliseconds -/
@@ -141,6 +150,9 @@ structure Target where
 def Target.accepts (T : Target) : Bool := T.closedAt.isNone
 /-- `ACTIVE_STATES.contains(&actor.get_status())` -/
 def Target.active (T : Target) : Bool := T.closedAt.isNone
+
+/-- `actor.send_message::<TMessage>(msg)` of this timer succeeds: right message type, status < Draining -/
+def Timer.canSend (τ : Timer) (T : Target) : Bool := T.accepts && τ.typed
 
 def Target.push (T : Target) (m : Nat × Nat) : Target := { T with mbox := T.mbox ++ [m] }
 
@@ -197,7 +209,7 @@ def ivAwait (now id a : Nat) : Nat → Timer → Target → Timer × Target
       -- tick completed; `msg()` is called, then `send_message`
       let k := τ.sentAt.length + 1
       let τ' := τ.attempt now
-      if T.accepts then
+      if τ.canSend T then
         let T' := T.push (id, k)
         -- loop head: `while ACTIVE_STATES.contains(&actor.get_status())`
         if !T'.active then (τ'.finish .ok now, T')
@@ -224,7 +236,7 @@ def fireArmed (now id a : Nat) (τ : Timer) (T : Target) : Timer × Target :=
     else (τ, T)
   | .sendAfter =>
     if τ.deadline a ≤ now then
-      if T.accepts then ((τ.attempt now).finish .ok now, T.push (id, τ.sentAt.length + 1))
+      if τ.canSend T then ((τ.attempt now).finish .ok now, T.push (id, τ.sentAt.length + 1))
       else ((τ.attempt now).finish .err now, T)
     else (τ, T)
   | .exitAfter =>
@@ -254,6 +266,8 @@ structure State where
 
 inductive Op
   | create (k : Kind) (p : Nat)
+  /-- the free function called with a message type that is not the target's -/
+  | createX (k : Kind) (p : Nat)
   | tick (d : Nat)
   | fire (i : Nat)
   | abort (i : Nat)
@@ -268,6 +282,7 @@ inductive Op
 
 def step (s : State) : Op → State
   | .create k p => { s with timers := s.timers ++ [{ kind := k, period := p, created := s.now }] }
+  | .createX k p => { s with timers := s.timers ++ [{ kind := k, period := p, created := s.now, typed := false }] }
   | .tick d => { s with now := s.now + d }
   | .fire i =>
     match s.timers[i]? with
@@ -304,6 +319,7 @@ def init : State := {}
 
 inductive MOp
   | create (k : Kind) (p : Nat)
+  | createX (k : Kind) (p : Nat)
   | adv (d : Nat)
   | advAbort (d i : Nat)
   | advStop (d : Nat) | advKill (d : Nat) | advDrain (d : Nat)
@@ -323,6 +339,7 @@ timer tasks woken by the time driver run before the target reacts; a task made r
 harness itself (`abort`, `stop`, `kill`) runs before the time driver is polled. -/
 def expand (s : State) : MOp → List Op
   | .create k p => [.create k p, .fire s.timers.length, .target, .mark]
+  | .createX k p => [.createX k p, .fire s.timers.length, .target, .mark]
   | .adv d => [.tick d] ++ fireAll s.timers.length ++ [.target, .mark]
   | .advAbort d i => [.tick d, .abort i] ++ fireAll s.timers.length ++ [.target, .mark]
   | .advStop d => [.tick d, .stop, .target] ++ fireAll s.timers.length ++ [.target, .mark]
@@ -382,7 +399,7 @@ def closedOk (cl : Option Nat) (τ : Timer) : Bool :=
 /-- the handle of `send_after` tells whether the message was accepted: `Ok` ⇒ the send happened no
 later than the instant the target stopped accepting, `Err` ⇒ the target had stopped accepting -/
 def acceptOk (cl : Option Nat) (τ : Timer) : Bool :=
-  τ.kind != .sendAfter ||
+  τ.kind != .sendAfter || !τ.typed ||
     (match τ.res with
      | .ok => (match cl with | some tc => τ.sentAt.all (fun t => decide (t ≤ tc)) | none => true)
      | .err => (match cl with | some tc => τ.sentAt.all (fun t => decide (tc ≤ t)) | none => false)
@@ -392,6 +409,13 @@ def acceptOk (cl : Option Nat) (τ : Timer) : Bool :=
 def panicOk (τ : Timer) : Bool :=
   (τ.res != .panicked || (τ.kind == .interval && τ.period == 0)) &&
   (!(τ.kind == .interval && τ.period == 0) || τ.sentAt.isEmpty)
+
+/-- a timer with the wrong message type tries once (the message builder runs), fails, and is done:
+`send_after` never answers `Ok`, `send_interval` leaves its loop through the `break` -/
+def mistypedOk (τ : Timer) : Bool :=
+  τ.typed || !τ.kind.sends ||
+    (decide (τ.sentAt.length ≤ 1) && (τ.res != .pending || τ.sentAt.isEmpty) &&
+      !(τ.kind == .sendAfter && τ.res == .ok))
 
 def timerOk (s : State) (τ : Timer) : Bool :=
   -- never early, measured from the API call
@@ -404,6 +428,7 @@ def timerOk (s : State) (τ : Timer) : Bool :=
   && closedOk s.target.closedAt τ
   && acceptOk s.target.closedAt τ
   && panicOk τ
+  && mistypedOk τ
 
 /-- Where an exit reason can come from. -/
 def reasonOk (s : State) (r : Reason) (te : Nat) : Bool :=
